@@ -69,9 +69,16 @@ def x_hist(ctx, case):
     log = recorders.Log()
     sinks = {}
 
+    class EmptyLooking(recorders.StreamRecorder):
+        """A perfectly good sink that happens to be falsy (e.g. a buffering result with __len__)."""
+
+        def __len__(self):
+            return 0
+
     def sink(name):
         if name not in sinks:
-            sinks[name] = recorders.StreamRecorder(log, name)
+            cls = EmptyLooking if cfg.get("falsy_sinks") else recorders.StreamRecorder
+            sinks[name] = cls(log, name)
         return sinks[name]
 
     fallback = sink("fallback") if cfg["fallback"] else None
@@ -112,6 +119,20 @@ def x_hist(ctx, case):
                 registered.append(name)
                 if in_run:
                     expected[name].append(("startTestRun",))
+        elif kind == "bad_rule":
+            # add_rule refused by the policy (two-step prefix / missing argument): nothing may stick
+            _, name, how, dssr = op
+            try:
+                if how == "two-step":
+                    router.add_rule(sink(name), "route_code_prefix", route_prefix="0/1", do_start_stop_run=dssr)
+                elif how == "missing":
+                    router.add_rule(sink(name), "test_id", do_start_stop_run=dssr)
+                else:
+                    router.add_rule(sink(name), "no-such-policy", do_start_stop_run=dssr)
+                refused = None
+            except (TypeError, ValueError) as e:
+                refused = e
+            ctx.check(refused is not None, "add_rule.bad-rule-refused", lambda: {"op": op, **detail()})
         elif kind in ("ev", "q"):
             kw = mk_event(op[-1])
             sent = dict(kw)
@@ -243,9 +264,14 @@ def run(ctx):
         rng.shuffle(free_p)
         rng.shuffle(free_t)
         ops, k = [], 0
+        if rng.random() < 0.2:
+            cfg["falsy_sinks"] = True
         for _ in range(rng.randint(2, 14)):
             r = rng.random()
-            if r < 0.12:
+            if r < 0.04:
+                k += 1
+                ops.append(["bad_rule", "s%d" % k, rng.choice(["two-step", "missing", "policy"]), rng.random() < 0.7])
+            elif r < 0.12:
                 ops.append(["start"] if rng.random() < 0.6 else ["stop"])
             elif r < 0.32 and (free_p or free_t):
                 k += 1
